@@ -636,7 +636,8 @@ def time_model(inst):
         return {"closed": True, "after_now": True, "grid": None, "prec_guard": 1,
                 "prec_rt": "chosen"}
     return {"closed": False, "after_now": False,
-            "grid": (kw.get("time_discretization", 1), kw["plan_ahead"]),
+            # without an explicit plan_ahead the formulations plan up to the greatest deadline of the offered tasks
+            "grid": (kw.get("time_discretization", 1), kw["plan_ahead"] if "plan_ahead" in kw else max(t["deadline"] for t in inst["tasks"])),
             "prec_guard": 0, "prec_rt": "worst"}
 
 
@@ -796,6 +797,18 @@ def run_real(inst, pin=None):
     ctx = build_instance(inst)
     sched = make_scheduler(inst)
     out = {"ctx": ctx, "placements": None, "error": None, "pinned": None}
+    if inst.get("warmup"):
+        # the scheduler object lives for the whole simulation: an EARLIER invocation of the same object on another small
+        # world (same workers, its own tasks) precedes the judged one, so that anything the policy remembers between
+        # invocations is in play (seed C14-3: a planning horizon resolved once and reused)
+        w = dict(inst, now=inst["warmup"]["now"], tasks=inst["warmup"]["tasks"], edges=inst["warmup"].get("edges", []))
+        w.pop("warmup")
+        wctx = build_instance(w)
+        try:
+            with contextlib.redirect_stdout(io.StringIO()):
+                sched.schedule(wctx["sim_time"], wctx["workload"], wctx["worker_pools"])
+        except Exception as e:
+            out["warmup_error"] = "%s: %s" % (type(e).__name__, str(e)[:200])
     out["before"] = snapshot(ctx)
     hook = None
     if pin is not None and kind != "z3":
@@ -1799,8 +1812,11 @@ def gen_c11(tier, seed):
             if tier == "quick" and shape == "chain4":
                 continue
             mixes = ["new", "running", "scheduled"]
-            if tier != "quick" and shape in ("chain3", "chain4"):
+            if shape in ("chain2", "chain3") or (tier != "quick" and shape == "chain4"):
+                # a child that an earlier invocation already SCHEDULED (and that is decided again, retract_schedules off)
+                # below a RUNNING / SCHEDULED parent (seed C11-3)
                 mixes.append("run+sched")
+                mixes.append("sched+sched")
             if tier != "quick" and shape == "join":
                 mixes.append("both-running")
             for mix in mixes:
@@ -1820,13 +1836,13 @@ def gen_c11(tier, seed):
                         tasks.append(T(n, g, dl, 0, [(full, CPU1)], "running",
                                        {"worker": 0, "strategy": 0, "start": now - 2}))
                         rt[n] = full
-                    elif n == "A" and mix == "scheduled":
+                    elif n == "A" and mix in ("scheduled", "sched+sched"):
                         tasks.append(T(n, g, dl, 0, strat, "scheduled",
                                        {"worker": 0, "strategy": 0, "start": now + 2}))
-                    elif n == "B" and mix == "run+sched":
+                    elif n == "B" and mix in ("run+sched", "sched+sched"):
                         tasks.append(T(n, g, dl, 0, strat, "scheduled",
                                        {"worker": len(workers) - 1, "strategy": 0,
-                                        "start": now + rt["A"] + 1}))
+                                        "start": now + rt["A"] + (1 if mix == "run+sched" else 4)}))
                     elif n == "B" and mix == "both-running":
                         tasks.append(T(n, g, dl, 0, [(rt[n] + 2, CPU1)], "running",
                                        {"worker": len(workers) - 1, "strategy": 0, "start": now - 1}))
@@ -1974,6 +1990,12 @@ def gen_c12(tier, seed):
         fams.append(("otherworker", [{"CPU": 1}, {"CPU": 1}],
                      [T("R", "G0", loose, 0, [(6, CPU1)], "running", {"worker": 0, "strategy": 0, "start": now - 1}),
                       T("X", "G1", now + r + 1, 0, [(r, CPU1)]), T("Y", "G2", now + r + 2, 0, [(r, CPU1)])]))
+        # a task that an earlier invocation SCHEDULED behind a running one is decided again (retract_schedules off) while a
+        # new task contends for the same slot (seed C12-3): its deadline must still bind
+        fams.append(("replan/scheduled", [{"CPU": 1}],
+                     [T("R", "G0", loose, 0, [(4, CPU1)], "running", {"worker": 0, "strategy": 0, "start": now - 2}),
+                      T("S", "G1", now + 3 + r + 1, 0, [(r, CPU1)], "scheduled", {"worker": 0, "strategy": 0, "start": now + 3, "decided_at": now - 2}),
+                      T("N", "G2", loose, now, [(r, CPU1)])]))
         if tier != "quick":
             fams.append(("released-late", [{"CPU": 1}],
                          [T("X", "G1", now + r + 1, now - 1, [(r, CPU1)]),
@@ -2085,6 +2107,12 @@ def gen_c14(tier, seed):
                 out.append(I("c14/v%d/%s" % (vi, name), now, workers, tasks, edges, kind, kw,
                              horizon=12, plan_limit=30000,
                              check_limit=(2500 if tier == "quick" else 6000)))
+        # second invocation of the same scheduler object, no explicit plan_ahead: the first invocation saw only a small deadline
+        for kind in ("tetri_gurobi", "tetri_cplex"):
+            out.append(I("c14/v%d/second-invocation/default-horizon" % vi, now, [{"CPU": 1}],
+                         [T("X", "G1", now + 10, 0, [(4, CPU1)]), T("Y", "G2", now + 10, 0, [(4, CPU1)])], [], kind, {"enforce_deadlines": True},
+                         horizon=12, plan_limit=30000, check_limit=(2500 if tier == "quick" else 6000),
+                         warmup={"now": 0, "tasks": [T("W", "GW", 3, 0, [(2, CPU1)])]}))
     return out
 
 
@@ -2101,15 +2129,15 @@ RULES = {
 }
 BOUNDS = {
     "C11": "all DAG shapes <=4 nodes (chain2/3/4, fork, join, diamond, chain+independent) x predecessor new/RUNNING/"
-           "SCHEDULED (built with the real Task.release/schedule/start/step) x release_taskgraphs/lookahead; 1-2 workers, "
+           "SCHEDULED, child SCHEDULED by an earlier invocation below a RUNNING / SCHEDULED parent (built with the real Task.release/schedule/start/step) x release_taskgraphs/lookahead; 1-2 workers, "
            "<=2 strategies; ILP, TetriSched-Gurobi, Z3; every feasible point of each captured model",
     "C10": "<=3 offered + <=2 running/scheduled tasks, <=2 workers (1-2 pools), <=2 strategies, resources CPU/GPU, future "
            "release with lookahead, chain with release_taskgraphs; ILP, TetriSched-Gurobi, TetriSched-CPLEX, Z3; every "
            "feasible point + run-level clauses on the returned optimum",
     "C12": "deadline in {now-5, now, now+1, now+r-1, now+r, now+r+1, now+r+2, loose}, 1-2 tasks, 1-2 strategies, "
-           "contention, running blocker, two workers, a child offered alone after its parent completed; ILP (task-by-task), TetriSched-Gurobi, TetriSched-CPLEX with "
+           "contention, running blocker, two workers, a child offered alone after its parent completed, a SCHEDULED task decided again behind a running one; ILP (task-by-task), TetriSched-Gurobi, TetriSched-CPLEX with "
            "enforce_deadlines; every feasible point + returned optimum",
-    "C14": "<=4 offered tasks, <=2 workers, <=2 strategies, horizon <=12 slots, discretisation 1-3, running tasks, a future release inside the lookahead with zero slack, a deadline between the fastest and the slowest strategy; all "
+    "C14": "<=4 offered tasks, <=2 workers, <=2 strategies, horizon <=12 slots, discretisation 1-3, running tasks, a future release inside the lookahead with zero slack, a deadline between the fastest and the slowest strategy, a second invocation of the same scheduler object without an explicit horizon; all "
            "plans of the planner's own decision space enumerated by brute force with an independent feasibility function",
 }
 GENS = {"C10": gen_c10, "C11": gen_c11, "C12": gen_c12, "C14": gen_c14}
